@@ -38,6 +38,7 @@ class Trace:
     def __init__(self) -> None:
         self.stack: list = []
         self.reads: list = []  # (template name, Path object, tuple(stack), context)
+        self.macro_defs: dict = {}  # macro name -> node stack at the place where the macro tag was rendered (its textual enclosure)
         self.direct: list = []  # (template name, root name, tuple(stack), origin): scope reads that no Path expression made
         self.in_path = 0
         self.tags: dict = {}
@@ -76,6 +77,8 @@ def _install() -> None:
             return orig_render(self, context, buffer)
         note_node(tr, self, context)
         tr.stack.append(self)
+        if type(self).__name__ == "MacroNode":
+            tr.macro_defs[str(self.name)] = tuple(tr.stack)
         try:
             return orig_render(self, context, buffer)
         finally:
@@ -87,6 +90,8 @@ def _install() -> None:
             return await orig_render_async(self, context, buffer)
         note_node(tr, self, context)
         tr.stack.append(self)
+        if type(self).__name__ == "MacroNode":
+            tr.macro_defs[str(self.name)] = tuple(tr.stack)
         try:
             return await orig_render_async(self, context, buffer)
         finally:
@@ -318,6 +323,12 @@ def evaluate(case) -> Verdict:
                 bound |= names
         if entered and entered[0]:
             contexts_per_partial.setdefault(entered[0], set()).add(entered[1])
+        calls = [nd for nd in stack[:-1] if type(nd).__name__ == "CallNode"]
+        if calls:
+            # inside a macro body the reference is textually where the macro was defined: the blocks around the macro tag
+            # (a loop around the include that brought the definition in, say) are "a block binding that name" as well
+            for nd in tr.macro_defs.get(str(calls[-1].name), ()):
+                bound |= bindings_of(nd)[0]
         if origin != "globals" or root in bound or root in assigned:
             continue
         if type(stack[-1]).__name__ == "CallNode" and not _owns(stack[-1], path):
